@@ -28,6 +28,9 @@ use hashbrown::{
 
 use super::Stages;
 
+#[cfg(brood_verif)]
+use crate::verif::shim as rayon;
+
 define_null!();
 
 /// A stage within a schedule.
